@@ -1057,3 +1057,59 @@ def lane_level(chk, exe, tier, seed):
     # the simulated behaviours must also satisfy the verdict spec
     vouts = run_jobs([j for j in jobs if j["name"].startswith("lane-sim")], exe, "TraceHash")
     collect(chk, vouts, {chk.prop})
+
+
+# ------------------------------------------------------------------------------------------ binding self-tests
+def binding_selftest(pid):
+    """Demonstrates that the specification is bound to the recorded execution: a pristine trace is accepted, the same trace
+    with one recorded field corrupted (or one event removed) is not.  `check.py <id> --selftest` (not part of quick)."""
+    rng = random.Random(7)
+    if pid in ("C01", "C06", "C11", "C15"):
+        exe, spec = build.build_driver("hash", HASH_SRCS), "TraceHash"
+        beh = gen_hash.class_behaviour(rng, "sha256", "avx2", "minlane")
+        env = {"MAXN": "16"}
+        muts = [("digest nibble", r'"dig":"([0-9a-f])', lambda m: '"dig":"%x' % ((int(m.group(1), 16) + 1) % 16)),
+                ("returned context", r'"ret":0,', lambda m: '"ret":1,'), ("status word", r'"sts":\[4', lambda m: '"sts":[5')]
+    elif pid in ("C02", "C03", "C04", "C07", "C14"):
+        exe, spec = build.build_driver("aes", AES_SRCS), "TraceAes"
+        beh = gen_aes.gcm_stream_behaviour(rng, "avx_gen4", 128, "enc", 0, [135, 1, 20]) + [gen_aes.xts_call(rng, "sse", 256, "dec", 0, 49)]
+        env = {}
+        muts = [("output nibble", r'"out":"([0-9a-f])', lambda m: '"out":"%x' % ((int(m.group(1), 16) + 1) % 16)),
+                ("tag nibble", r'"tag":"([0-9a-f])', lambda m: '"tag":"%x' % ((int(m.group(1), 16) + 1) % 16))]
+    elif pid in ("C05", "C09", "C10"):
+        exe, spec = build.build_driver("mh", MH_SRCS, wraps=MH_WRAPS), "TraceMh"
+        beh = gen_mh.mh_behaviour(rng, "murmur", "avx2", 1500, [1000, 24, 476]) + gen_mh.rh_behaviour(rng, "isal", "04", 16)
+        env = {}
+        muts = [("digest nibble", r'"dig":"([0-9a-f])', lambda m: '"dig":"%x' % ((int(m.group(1), 16) + 1) % 16)),
+                ("offset", r'"off":(\d+)', lambda m: '"off":%d' % (int(m.group(1)) + 1))]
+    elif pid == "C17":
+        exe, spec = build.build_driver("self", SELF_SRCS, variant="fips", wraps=SELF_WRAPS), "TraceSelfTest"
+        mapcmd, _ = gen_self.instr_map(exe)
+        beh = [mapcmd, "selfrun 2 2 0 0 t 0011110000111100"]
+        env = {}
+        muts = [("return value", r'"rv":0', lambda m: '"rv":2016'), ("second run of the tests", r'(\{"e":"RunAes","t":\d\})', lambda m: m.group(1) + "\n" + m.group(1))]
+    else:
+        print("no binding self-test for", pid)
+        return 2
+    import re
+    d = verif.scratch("selftest")
+    tr = os.path.join(d, "t.ndjson")
+    rc, err = verif.run_driver(exe, "\n".join(beh) + "\n", tr)
+    base = verif.validate_trace(spec, tr, env=env)
+    ok = not [v for v in base["viol"] if v["p"] not in ("DRIFT",)]
+    print("pristine trace: %d events, %d violations -> %s" % (base["events"], len(base["viol"]), "accepted" if ok else "REJECTED"))
+    text = open(tr).read()
+    allok = ok
+    for name, pat, rep in muts:
+        t2, n = re.subn(pat, rep, text, count=1)
+        if not n:
+            print("mutation '%s': pattern not found" % name)
+            allok = False
+            continue
+        p2 = os.path.join(d, "m.ndjson")
+        open(p2, "w").write(t2)
+        r = verif.validate_trace(spec, p2, env=env)
+        caught = [v for v in r["viol"] if v["p"] != "DRIFT"]
+        print("corrupted %-24s -> %s %s" % (name, "rejected" if caught else "STILL ACCEPTED", [(v["p"], v["what"]) for v in caught[:2]]))
+        allok = allok and bool(caught)
+    return 0 if allok else 1
